@@ -407,7 +407,7 @@ PROPS['C09'] = dict(
     functions=['BMOC::{into_iter,flat_iter,flat_iter_cell,to_flat_array,deep_size,to_ranges,from_raw_value}', 'BMOCFlatIter', 'BMOCFlatIterCell',
                'BMOCIter', 'Cell::new', 'build_raw_value', 'to_range'] + _BMOC_FUNCS[:4],
     bounds={'quick': 'views: every valid BMOC with (entries, depth_max) in {(0,1),(2,1),(1,2)}; builder layout: 2 pushes; operator outputs: and (2,2), not (1), xor (1,1)',
-            'thorough': 'adds views (1 entry, depth_max 2), flat array of (2,1); builder layout 3 pushes; output of xor (2 cells of depth <= 1, one base cell) (views of 3 entries: tier extended)'},
+            'thorough': 'adds views (1 entry, depth_max 2) except the flat array (out of memory at 12 / 24 GB: tier extended); builder layout 3 pushes; output of xor (2 cells of depth <= 1, one base cell) (views of 3 entries: tier extended)'},
     outside='outputs of cone / polygon / ellipse queries (their recursion order is not decided here); longer BMOCs; well-formedness of every operator and '
             'builder output is asserted in the C07 / C08 / C15 harnesses',
     assumptions=_BMOC_ASSUME,
@@ -504,9 +504,9 @@ PROPS['C14'] = dict(
                'nested::external_edge', 'nested::external_edge_sorted', 'nested::external_edge_struct', 'Layer::external_edge_generic', 'ExternalEdge'],
     bounds={'quick': 'internal edge (walk order, sorted variant) and corner / side helpers: every cell, (depth, delta) in {(0,1),(1,1),(1,2),(28,1)}; seam direction tables: '
                      'every cell x every direction at depths 0, 1, 2',
-            'thorough': 'adds (depth, delta) in {(0,2),(2,1),(2,2)}, seam tables at depths 3 and 29, and the external edge (plain and structured, depth 0, delta 1) against the plane oracle + the internal-edge guard, '
-                        'each with a 40 GB / 90 min cap (std iterator / Vec machinery: 5 M variables at depth 0); other external-edge shapes: tier extended'},
-    outside='quick tier: the assembly of the external edge from neighbours + seam tables + internal sides (external_edge_generic / external_edge_struct themselves) is only decided in the thorough tier; delta_depth > 2',
+            'thorough': 'adds (depth, delta) in {(0,2),(2,1),(2,2)} and the seam tables at depths 3 and 29'},
+    outside='NOT decided by a registered command: the assembly of the external edge from neighbours + seam tables + internal sides (external_edge_generic / external_edge_struct themselves): the harnesses c14_external_* / c14_struct_* '
+            '(plane oracle, 5 M variables at depth 0 because of the std iterator / Vec machinery) did not finish in 40 min at 40 GB and are tier extended; what is decided are the three ingredients (neighbours: C04, seam direction tables, internal sides); delta_depth > 2',
     assumptions=['plane oracle (harness/common/oracles.rs)', 'seam-table harness: Layer::neighbour is the adjacency oracle (decided against plane geometry by C04)',
                  'std::fmt::format / std::io::_print replaced by empty stubs (error messages, one stray println!)'],
 )
@@ -841,10 +841,10 @@ _KEEP_T = {
     'C06': r'.',
     'C07': r'^(?!c07_(or|xor)_(1_2|2_1)_dm11)',
     'C08': r'^(?!c08_(or_2_1|xor_1_2)_dm11)',
-    'C09': r'^(?!c09_views_\w+_3_dm1$)',
+    'C09': r'^(?!c09_views_\w+_3_dm1$)(?!c09_views_array_)',
     'C10': r'_d3$|^c10_\w+_eqr_d(5|8|16|17|28)$|^c10_ringends_[ns]_(d26_k67108800|d29_k536870848|d29_k402653184)$',
     'C11': r'^c11_(center|order)_n(4|5|7|8|13|536870911|536870912)$|^c11_point_\w+_n(3|5)_q\d$|^c11_point_eqr_n2$',
-    'C14': r'^c14_(internal|parts|dirs)_|^c14_external_d0_dd1$',
+    'C14': r'^c14_(internal|parts|dirs)_',
     'C15': r'^(?!c15_fixed_)|^c15_fixed_(d1_cap2_m2)$',
     'C16': r'.',
     'C17': r'.',
